@@ -347,6 +347,7 @@ static void cb_print(cfg_opt_t *opt, unsigned int index, FILE *fp)
 static char *filt_names[NFILT][32];
 static int filt_n[NFILT];
 static int filt_used;
+static unsigned print_toggle;
 
 static int filt_generic(int k, cfg_opt_t *opt)
 {
@@ -515,10 +516,118 @@ static cfg_opt_t *build_opts(int *pos, int depth)
 
 static void dump_cfg(cfg_t *cfg, int depth);
 
-static void dump_opt(cfg_opt_t *opt, int depth)
+/* The dump reads the tree through the by-option accessors.  The by-name getters (cfg_getnint() ... cfg_size(),
+ * cfg_getcomment(), cfg_getnsec(), cfg_gettsec(), cfg_name(), cfg_opt_name(), cfg_title()) are what applications
+ * use ("as observed through the getters"): every dump also reads each value through them and reports a hazard when
+ * the two views differ.  Only done for names that are plain words and the first of their name in the section. */
+static int plain_first(cfg_t *cfg, cfg_opt_t *opt)
+{
+	const char *c;
+	unsigned int i;
+	cfg_opt_t *o;
+
+	if (!opt->name || !opt->name[0])
+		return 0;
+	for (c = opt->name; *c; c++)
+		if (!isalnum((unsigned char)*c) && *c != '_' && *c != '-' && *c != '.')
+			return 0;
+	for (i = 0; (o = cfg_getnopt(cfg, i)) && o != opt; i++)
+		if (o->name && strcasecmp(o->name, opt->name) == 0)
+			return 0;
+	return 1;
+}
+
+static void getter_hazard(cfg_opt_t *opt, const char *what, unsigned int i)
+{
+	fprintf(obs, "H getter %s ", what);
+	puthex(opt->name);
+	fprintf(obs, " %u\n", i);
+}
+
+static void cross_check(cfg_t *cfg, cfg_opt_t *opt)
+{
+	unsigned int i, n = opt->nvalues;
+	const char *nm = opt->name;
+	int q = quiet;
+
+	if (cfg_opt_name(opt) != opt->name)
+		getter_hazard(opt, "opt_name", 0);
+	if (cfg_opt_size(opt) != n)
+		getter_hazard(opt, "opt_size", 0);
+	if (cfg_opt_getcomment(opt) != opt->comment)
+		getter_hazard(opt, "opt_getcomment", 0);
+	if (!plain_first(cfg, opt))
+		return;
+	quiet = 1;
+	if (cfg_getopt(cfg, nm) != opt)
+		getter_hazard(opt, "getopt", 0);
+	if (cfg_size(cfg, nm) != n)
+		getter_hazard(opt, "size", 0);
+	if (cfg_getcomment(cfg, nm) != opt->comment)
+		getter_hazard(opt, "getcomment", 0);
+	for (i = 0; i <= n; i++) {	/* one past the end too: both views must give the same 'no value' answer */
+		switch (opt->type) {
+		case CFGT_INT:
+			if (cfg_getnint(cfg, nm, i) != cfg_opt_getnint(opt, i) || (i == 0 && cfg_getint(cfg, nm) != cfg_opt_getnint(opt, 0)))
+				getter_hazard(opt, "getnint", i);
+			break;
+		case CFGT_FLOAT:
+			if (dbits(cfg_getnfloat(cfg, nm, i)) != dbits(cfg_opt_getnfloat(opt, i)) || (i == 0 && dbits(cfg_getfloat(cfg, nm)) != dbits(cfg_opt_getnfloat(opt, 0))))
+				getter_hazard(opt, "getnfloat", i);
+			break;
+		case CFGT_BOOL:
+			if (cfg_getnbool(cfg, nm, i) != cfg_opt_getnbool(opt, i) || (i == 0 && cfg_getbool(cfg, nm) != cfg_opt_getnbool(opt, 0)))
+				getter_hazard(opt, "getnbool", i);
+			break;
+		case CFGT_STR:
+			if (cfg_getnstr(cfg, nm, i) != cfg_opt_getnstr(opt, i) || (i == 0 && (cfg_getstr(cfg, nm) != cfg_opt_getnstr(opt, 0) || cfg_opt_getstr(opt) != cfg_opt_getnstr(opt, 0))))
+				getter_hazard(opt, "getnstr", i);
+			break;
+		case CFGT_PTR:
+			if (cfg_getnptr(cfg, nm, i) != cfg_opt_getnptr(opt, i) || (i == 0 && cfg_getptr(cfg, nm) != cfg_opt_getnptr(opt, 0)))
+				getter_hazard(opt, "getnptr", i);
+			break;
+		case CFGT_SEC: {
+			cfg_t *s = cfg_opt_getnsec(opt, i);
+
+			if (cfg_getnsec(cfg, nm, i) != s || (i == 0 && cfg_getsec(cfg, nm) != s))
+				getter_hazard(opt, "getnsec", i);
+			if (s) {
+				unsigned int j;
+				cfg_t *first = s;
+
+				if (cfg_name(s) != s->name || strcmp(cfg_name(s), nm) != 0)
+					getter_hazard(opt, "name", i);
+				if (cfg_title(s) != s->title)
+					getter_hazard(opt, "title", i);
+				if (s->title && (opt->flags & CFGF_TITLE)) {
+					/* the by-title getter returns the first instance carrying that title */
+					for (j = 0; j < i; j++) {
+						cfg_t *e = cfg_opt_getnsec(opt, j);
+
+						if (e && e->title && ((opt->flags & CFGF_NOCASE) ? strcasecmp(e->title, s->title) : strcmp(e->title, s->title)) == 0) {
+							first = e;
+							break;
+						}
+					}
+					if (cfg_opt_gettsec(opt, s->title) != first || cfg_gettsec(cfg, nm, s->title) != first)
+						getter_hazard(opt, "gettsec", i);
+				}
+			}
+			break;
+		}
+		default:
+			break;
+		}
+	}
+	quiet = q;
+}
+
+static void dump_opt(cfg_t *cfg, cfg_opt_t *opt, int depth)
 {
 	unsigned int i;
 
+	cross_check(cfg, opt);
 	fprintf(obs, "V %d ", depth);
 	puthex(opt->name);
 	fprintf(obs, " %s %d %u ", type_name(opt->type), opt->flags, opt->nvalues);
@@ -569,8 +678,10 @@ static void dump_cfg(cfg_t *cfg, int depth)
 	unsigned int i;
 	cfg_opt_t *o;
 
+	if (cfg_num(cfg) != (unsigned int)({ unsigned int k = 0; while (cfg->opts[k].name) k++; k; }))
+		fprintf(obs, "H getter num\n");
 	for (i = 0; (o = cfg_getnopt(cfg, i)); i++)
-		dump_opt(o, depth);
+		dump_opt(cfg, o, depth);
 }
 
 /* position of an option / section inside the tree */
@@ -870,7 +981,8 @@ static void run_line(char *line)
 	} else if (n == 5 && strlen(w[0]) == 2 && (w[0][0] == 'S' || w[0][0] == 'O') && strchr("IFBS", w[0][1])) {
 		char *p = unhex(w[2], NULL);
 		unsigned int idx = (unsigned int)strtoul(w[3], NULL, 10);
-		int rc = -1;
+		int rc = -1, wrap;
+		static unsigned wrap_toggle;
 		cfg_t *c;
 		cfg_opt_t *o = NULL;
 
@@ -880,21 +992,28 @@ static void run_line(char *line)
 		if (w[0][0] == 'O')
 			o = cfg_getopt(c, p);
 		setter_kind = w[0][1];
+		/* index 0 by name: every other call goes through the un-indexed wrapper (cfg_setint() ...), which must
+		 * mean the same */
+		wrap = (w[0][0] == 'S' && idx == 0) ? (wrap_toggle++ & 1) : 0;
 		switch (w[0][1]) {
 		case 'I':
-			rc = w[0][0] == 'S' ? cfg_setnint(c, p, strtol(w[4], NULL, 10), idx) : cfg_opt_setnint(o, strtol(w[4], NULL, 10), idx);
+			rc = wrap ? cfg_setint(c, p, strtol(w[4], NULL, 10)) :
+			     w[0][0] == 'S' ? cfg_setnint(c, p, strtol(w[4], NULL, 10), idx) : cfg_opt_setnint(o, strtol(w[4], NULL, 10), idx);
 			break;
 		case 'F':
-			rc = w[0][0] == 'S' ? cfg_setnfloat(c, p, bitsd(strtoull(w[4], NULL, 16)), idx)
+			rc = wrap ? cfg_setfloat(c, p, bitsd(strtoull(w[4], NULL, 16))) :
+			     w[0][0] == 'S' ? cfg_setnfloat(c, p, bitsd(strtoull(w[4], NULL, 16)), idx)
 					    : cfg_opt_setnfloat(o, bitsd(strtoull(w[4], NULL, 16)), idx);
 			break;
 		case 'B':
-			rc = w[0][0] == 'S' ? cfg_setnbool(c, p, (cfg_bool_t)atoi(w[4]), idx) : cfg_opt_setnbool(o, (cfg_bool_t)atoi(w[4]), idx);
+			rc = wrap ? cfg_setbool(c, p, (cfg_bool_t)atoi(w[4])) :
+			     w[0][0] == 'S' ? cfg_setnbool(c, p, (cfg_bool_t)atoi(w[4]), idx) : cfg_opt_setnbool(o, (cfg_bool_t)atoi(w[4]), idx);
 			break;
 		case 'S': {
 			char *v = unhex(w[4], NULL);
 
-			rc = w[0][0] == 'S' ? cfg_setnstr(c, p, v, idx) : cfg_opt_setnstr(o, v, idx);
+			rc = wrap ? cfg_setstr(c, p, v) :
+			     w[0][0] == 'S' ? cfg_setnstr(c, p, v, idx) : cfg_opt_setnstr(o, v, idx);
 			free(v);
 			break;
 		}
@@ -1042,6 +1161,21 @@ static void run_line(char *line)
 			o = (cfg_opt_t *)(cfg_set_validate_func(CTX(1), p, cb_valid) == cb_valid ? (void *)1 : NULL);
 		fprintf(obs, "R %d\n", o ? 0 : -1);
 		free(p);
+	} else if (!strcmp(w[0], "PFN") && n == 4) {
+		/* install (1) or remove (0) a print callback at run time */
+		char *p = unhex(w[2], NULL);
+		cfg_print_func_t want = w[3][0] == '1' ? cb_print : NULL;
+
+		NEEDCTX(1);
+		quiet = 1;
+		cfg_set_print_func(CTX(1), p, want);
+		/* found iff setting it again returns what was just installed */
+		if (want)
+			fprintf(obs, "R %d\n", cfg_set_print_func(CTX(1), p, want) == want ? 0 : -1);
+		else
+			fprintf(obs, "R %d\n", cfg_getopt(CTX(1), p) ? 0 : -1);
+		quiet = 0;
+		free(p);
 	} else if (!strcmp(w[0], "FL") && n >= 3) {
 		cfg_t *target;
 		int i, k = filt_used++ % NFILT;
@@ -1074,7 +1208,10 @@ static void run_line(char *line)
 
 		NEEDCTX(1);
 		f = open_memstream(&buf, &len);
-		cfg_print(CTX(1), f);
+		if (print_toggle++ & 1)
+			cfg_print_indent(CTX(1), f, 0);	/* the same text by definition */
+		else
+			cfg_print(CTX(1), f);
 		fclose(f);
 		fputs("B ", obs);
 		puthexn(buf, len);
@@ -1113,7 +1250,10 @@ static void run_line(char *line)
 			size_t len = 0;
 			FILE *f = open_memstream(&buf, &len);
 
-			cfg_opt_print(o, f);
+			if (print_toggle++ & 1)
+				cfg_opt_print_indent(o, f, 0);
+			else
+				cfg_opt_print(o, f);
 			fclose(f);
 			fputs("B ", obs);
 			puthexn(buf, len);
